@@ -283,7 +283,7 @@ func whySuffix(w string) string {
 func e1Controls() []Ob {
 	var obs []Ob
 	for _, n := range []string{"Bad_E1_missing", "Bad_E1_flipped", "Bad_E1_wrongbinding", "Bad_E1_noreturn", "Bad_E1_overwritten", "Bad_E1_late",
-		"Good_E1_init", "Good_E1_assignthentest", "Good_E1_switch", "Good_E1_andand", "Good_E1_negated"} {
+		"Good_E1_init", "Good_E1_assignthentest", "Good_E1_switch", "Good_E1_andand", "Good_E1_negated", "Good_E1_helper", "Bad_E1_leakyhelper"} {
 		obs = append(obs, Ob{ID: "E1", Fn: "zzverifctl." + n, P: []string{"r"}, Kind: "call", Pat: "e1sink($r)", Req: []string{"ok(e1check($r.ID, $id))"}})
 	}
 	obs = append(obs, Ob{ID: "E1", Fn: "zzverifctl.Bad_E1_oror", P: []string{"r"}, Kind: "call", Pat: "e1sink($r)", Req: []string{`neq($r.Client, "")`, "true(e1valid($r.ID))"}})
